@@ -34,7 +34,8 @@ META = {
              "0-3 bonded neighbours built or not, backmap flags, fudge factors) run through the real "
              "Backmap processor with scipy's optimiser and with an arbitrary-angle oracle; a case is "
              "non-trivial when at least one residue with >= 2 atoms is backmapped; distinct by the "
-             "(template shapes, flags, angles) fingerprint"),
+             "(template shapes, flags, angles) fingerprint"
+             "; directed / added families (waves 10-12): complete gen_coords runs with polyply-generated templates, virtual sites, [ volumes ] directives, a residue whose template never converges in three molecules"),
     'assumptions': [
         "float results of the implementation are compared with the PrimFloat evaluation of the model bit-exactly; "
         "the theorems are over R (no rounding-error analysis)",
